@@ -39,7 +39,19 @@ func main() {
 	list := flag.Bool("list", false, "list properties and rules")
 	dump := flag.String("dump", "", "development aid: universe:pkgsuffix:Recv:func")
 	genBaseline := flag.String("gen-baseline", "", "development aid: write the baseline symbol table of the current tree to this file")
+	gsweep := flag.String("global-sweep", "", "development aid: analyse every single-edit variant of every anchored function with the rules of all properties; write the table to this file")
+	vFile := flag.String("variant-file", "", "internal: child process of the sensitivity sweep")
+	vSrc := flag.String("variant-src", "", "internal")
+	vBase := flag.String("variant-baseline", "", "internal")
 	flag.Parse()
+	if *vFile != "" {
+		variantChild(*repo, *prop, *vFile, *vSrc, *vBase)
+		return
+	}
+	if *gsweep != "" {
+		globalSweep(*repo, *gsweep)
+		return
+	}
 	if *genBaseline != "" {
 		writeBaseline(newWorld(*repo, false), *genBaseline)
 		return
@@ -112,6 +124,7 @@ func main() {
 	}
 	r := newReport(spec.ID)
 	for _, rule := range spec.Rules {
+		resetFlatRoots()
 		rule(w, r)
 	}
 	controls := runControls()
